@@ -82,6 +82,7 @@ def variants(algo, tier):
     elif algo == "non_negative_tucker_hals":
         out.append(("fista", {"init": "svd", "algorithm": "fista"}, 2 if q else 4, True))
         out.append(("active_set", {"init": "random", "algorithm": "active_set"}, 2 if q else 4, True))
+        out.append(("fista-sparsity", {"init": "svd", "algorithm": "fista", "sparsity_coefficients": "PERMODE:0.1", "core_sparsity_coefficient": 0.1}, 2 if q else 4, True))
         if not q:
             out.append(("fista-normalize", {"init": "random", "algorithm": "fista", "normalize_factors": True}, 3, True))
     elif algo == "parafac2":
